@@ -11,6 +11,7 @@
 From Coq Require Import List NArith Bool.
 From Coq.Strings Require Import Byte.
 From Connect Require Import Bytes Generated GoIO Envelope.
+From Connect Require Plumbing.
 Import ListNotations.
 Local Open Scope N_scope.
 
@@ -117,3 +118,9 @@ Proof.
   - intros m H. exact H.
   - repeat constructor; vm_compute; auto; try reflexivity.
 Qed.
+
+(* every writer the code builds receives the configured threshold, pools and codec (the reader side is in Props/C09): extracted from every composite literal in the source by the translator on each run *)
+Theorem configuration_reaches_the_writers :
+  plumbing_envelope_writer_complete = true /\ plumbing_connect_unary_marshaler_complete = true.
+Proof. exact Plumbing.writers_receive_configuration. Qed.
+Print Assumptions configuration_reaches_the_writers.
